@@ -148,6 +148,10 @@ def eval_fit(case):
     with Recorder() as rec, warnings.catch_warnings():
         warnings.simplefilter("ignore")
         try:
+            if case["window"] is None:  # history: another well was fitted in this process just before
+                other = pd.DataFrame({"Days": np.arange(25.0), "Gas": 400.0 + 3.0 * np.arange(25.0),
+                                      "Pressure": np.linspace(0.6, 0.3, 25) * 11000.0})
+                fit_production_pressure(other, pvt, 11500.0, pressure_imax=11900.0, inplace_max=5e7, n_iter=1)
             guess = {"inside": p_i * 0.95, "below": 0.5 * np.nanmax(press), "above": 12500.0}[case.get("guess", "inside")]
             user = None
             if case.get("params"):  # limits declared by the caller through params=; the data's optimum lies outside
@@ -203,6 +207,11 @@ def eval_fit(case):
         if not (lo >= pmax_sched - 1e-9 and hi <= 12000.0 + 1e-9):
             viol.append(V("limits/p_initial", f"p_initial limits [{lo}, {hi}]; highest frac-face pressure used "
                           f"{pmax_sched}, stated maximum 12000", case=case))
+    if "M" in lim:
+        _, lo, hi = lim["M"]
+        if not (cum_used[-2] * (1 - 1e-12) <= lo <= cum_used[-1] * (1 + 1e-12) and hi == 1e6):
+            viol.append(V("limits/M", f"M limits [{lo}, {hi}]: the lower one is not the production already recorded "
+                          f"({cum_used[-2]} .. {cum_used[-1]}) or the upper one is not inplace_max=1e6", case=case))
     for name in ("tau", "M", "p_initial"):
         v = float(result.params[name].value)
         _, lo, hi = lim[name]
